@@ -13,7 +13,7 @@ RULE = ('Part bigbp: a few arrays of 2.1-16 million values through mv_to_bp / bp
         'Part bits: integer arrays of every dtype u/i 8..64, ndim 1..3 -> unpackbits/packbits inverse, bit i = (x >> i) & 1, padding/truncation '
         'as documented, popcount. non-trivial: pattern count not a multiple of 8, or ndim >= 3, or dtype wider than 8 bits, or an alias '
         'character used; distinct by SHA-1 of the case.')
-ASSUMPTIONS = ['little-endian host (unpackbits views the bytes of the array)',
+ASSUMPTIONS = ['little-endian host (unpackbits views the bytes of the array); for byte-swapped dtypes only the pack/unpack inversion is checked',
                'mvarray with k>=2 vectors of length S>=2 (otherwise the result rank is ambiguous by construction of the function)']
 
 CHARS = '0X-1PRFN'
@@ -175,6 +175,13 @@ def prop_bits(case):
     r = logic.packbits(u, dt)
     if r.shape != a.shape or r.dtype != dt or not np.array_equal(r, a):
         raise Violation(f'packbits(unpackbits(a), {dt}) != a')
+    # the same inversion for the non-native byte order of that dtype (only the inversion: the bit numbering of such items is not documented)
+    if dt.itemsize > 1:
+        sw = dt.newbyteorder('>' if dt.byteorder in ('=', '<', '|') and np.little_endian else '<')
+        a_sw = a.astype(sw)
+        r_sw = logic.packbits(logic.unpackbits(a_sw), sw)
+        if r_sw.shape != a_sw.shape or not np.array_equal(r_sw, a_sw):
+            raise Violation(f'packbits(unpackbits(a), {sw.str}) != a for {a_sw.ravel()[:4].tolist()} (got {np.asarray(r_sw).ravel()[:4].tolist()})')
     # padding / truncation: rows of `width` bits packed into tdt
     tdt = np.dtype(case['tdt'])
     tb = 8 * tdt.itemsize
